@@ -108,7 +108,14 @@ impl ProcessState {
             dbfile.push("db.sqlite3");
             dbfile
         };
-        let must_create = !dbfile.exists();
+        // Creating the database is not atomic (the file appears before the
+        // schema is committed), so decide whether it has to be created, and
+        // create it, while holding a lock: otherwise a second command started
+        // at the same time could see a database without tables, or delete
+        // the one we are in the middle of creating.
+        let mut init_lock = Lock::new(lock_manager.clone(), 0);
+        init_lock.wait_lock(LockType::Exclusive)?;
+        let must_create = !dbfile.exists() || !has_schema(&e, &dbfile);
         let mut db: Connection;
         {
             let tx = if !must_create {
@@ -203,6 +210,7 @@ impl ProcessState {
 
             tx.commit().map_err(RedoError::opaque_error)?;
         }
+        mem::drop(init_lock);
 
         Ok(ProcessState {
             db,
@@ -335,6 +343,24 @@ impl<'a> Drop for ProcessTransaction<'a> {
         if self.state.is_some() {
             let _ = self.finish_();
         }
+    }
+}
+
+/// Reports whether the database file contains a committed schema.
+///
+/// It does not if a previous command was killed between creating the file
+/// and committing its first transaction.
+fn has_schema<P: AsRef<Path>>(env: &Env, dbfile: P) -> bool {
+    match connect(env, dbfile) {
+        Ok(db) => db
+            .query_row(
+                "select count(*) from sqlite_master where type='table' and name='Schema'",
+                [],
+                |row| row.get::<usize, i64>(0),
+            )
+            .map(|n| n > 0)
+            .unwrap_or(true),
+        Err(_) => true,
     }
 }
 
